@@ -51,6 +51,7 @@ class SArr(_np.ndarray):
     def argmax(self, axis=None, **k): return NP.argmax(self, axis=axis)
     def argmin(self, axis=None, **k): return NP.argmin(self, axis=axis)
     def all(self, axis=None, **k): return NP.all(self, axis=axis)
+    def argsort(self, *a, **k): return NP.argsort(self)
     def any(self, axis=None, **k): return NP.any(self, axis=axis)
 
 
@@ -224,7 +225,7 @@ class NPShim(types.ModuleType):
         self.linalg = types.SimpleNamespace(
             norm=self._norm, LinAlgError=_np.linalg.LinAlgError,
             pinv=self._pinv, solve=self._solve, inv=self._inv, det=self._det)
-        self.random = _np.random
+        self.random = types.SimpleNamespace(shuffle=_nd_shuffle)
         self.sin, self.cos, self.tan = _trig("sin"), _trig("cos"), _trig("tan")
         self.arccos, self.arcsin, self.arctan = _trig("acos"), _trig("asin"), _trig("atan")
 
@@ -247,6 +248,8 @@ class NPShim(types.ModuleType):
         return a.view(SArr)
 
     def full(self, shape, v, dtype=None, **k):
+        if dtype is None and isinstance(v, (int, _np.integer)) and not isinstance(v, bool):
+            return _np.full(shape, v)
         if not _is_float_dtype(dtype):
             return _np.full(shape, v, dtype=dtype)
         a = _np.empty(shape, dtype=object)
@@ -569,6 +572,17 @@ class NPShim(types.ModuleType):
         if A.dtype != object and b.dtype != object:
             return _np.linalg.solve(A, b)
         return _np.dot(self._inv(A.astype(object)), b)
+
+
+def _nd_shuffle(arr):
+    """np.random.shuffle stub: an arbitrary permutation (forks over all of them)."""
+    n = len(arr)
+    for i in range(n - 1, 0, -1):
+        j = core.ENGINE.fork_int(0, i, "shuffle")
+        if j != i:
+            tmp = arr[i].copy() if isinstance(arr[i], _np.ndarray) else arr[i]
+            arr[i] = arr[j]
+            arr[j] = tmp
 
 
 NP = NPShim()
